@@ -322,9 +322,58 @@ class PyVC(ExprMixin, CallMixin, StmtMixin, Engine):
 
 
 # ---------------------------------------------------------------------------
+_PUSH_CACHE = {}
+
+
+def push_select_ite(e):
+    """Logically equivalent rewriting  select(ite(c, A, B), i) -> ite(c, select(A, i), select(B, i))  (recursively).
+    Heap arrays merged at control-flow joins are ite-arrays; quantified facts about one branch's array have
+    triggers like A[r], which never match a read of the merged array unless the read is pushed inside."""
+    key = e.get_id()
+    hit = _PUSH_CACHE.get(key)
+    if hit is not None and hit[0].eq(e):
+        return hit[1]
+    if z3.is_quantifier(e):
+        body = push_select_ite(e.body())
+        if body.eq(e.body()):
+            res = e
+        else:
+            n = e.num_vars()
+            vs = [z3.Const(e.var_name(i), e.var_sort(i)) for i in range(n)]
+            # rebuild with the same bound variables (de Bruijn: innermost is the last)
+            inst = z3.substitute_vars(body, *reversed(vs))
+            pats = []
+            for i in range(e.num_patterns()):
+                p = e.pattern(i)
+                pats.append(z3.MultiPattern(*[z3.substitute_vars(p.arg(j), *reversed(vs)) for j in range(p.num_args())])
+                            if p.num_args() > 1 else z3.substitute_vars(p.arg(0), *reversed(vs)))
+            res = (z3.ForAll if e.is_forall() else z3.Exists)(vs, inst, patterns=pats) if pats else \
+                (z3.ForAll if e.is_forall() else z3.Exists)(vs, inst)
+    elif z3.is_app(e) and e.num_args() > 0:
+        ch = [push_select_ite(c) for c in e.children()]
+        if e.decl().kind() == z3.Z3_OP_SELECT and z3.is_app(ch[0]) and ch[0].decl().kind() == z3.Z3_OP_ITE:
+            c, a, b = ch[0].children()
+            res = z3.If(c, push_select_ite(z3.Select(a, *ch[1:])), push_select_ite(z3.Select(b, *ch[1:])))
+        elif any(not x.eq(y) for x, y in zip(ch, e.children())):
+            res = e.decl()(*ch)
+        else:
+            res = e
+    else:
+        res = e
+    _PUSH_CACHE[key] = (e, res)
+    return res
+
+
 def check_obligation(vc, ob, rlimit=RLIMIT, use_cvc5=True):
     """Discharge one obligation. Sets ob.status/backend/time/model."""
     t0 = time.time()
+    if not getattr(ob, "_pushed", False):
+        try:
+            ob.goal = push_select_ite(ob.goal)
+            ob.pc = [push_select_ite(f) for f in ob.pc]
+        except Exception:        # the rewriting is an optimisation only
+            pass
+        ob._pushed = True
     r = z3.unknown
     # pass 0: quantified hypotheses sliced to the symbol families of the goal (dropping hypotheses is sound);
     # pass 1: all hypotheses, E-matching only; pass 2: with MBQI
